@@ -100,6 +100,10 @@ func isVideo(codec codecs.Codec) bool {
 // a prefix is needed to prevent usage of cached segments
 // from previous muxing sessions.
 func generatePrefix() (string, error) {
+	if p, ok := verifPrefix(); ok {
+		return p, nil
+	}
+
 	var buf [6]byte
 	_, err := rand.Read(buf[:])
 	if err != nil {
